@@ -185,7 +185,8 @@ def field_cases(tier):
     fams = ("loglin", "power")
     halos = (13.0, None) if tier == "quick" else (13.0, None, 30.0, 60.0)
     ns = (16, 64, 256) if tier == "quick" else (16, 64, 256, 1024)
-    for fam, fp, order in itertools.product(fams, (False, True), ("ascending", "descending", "rotated")):
+    # "duplicated": the same node requested twice (two instruments mapped to one grid node) - both slices are that node's solution
+    for fam, fp, order in itertools.product(fams, (False, True), ("ascending", "descending", "rotated", "duplicated")):
         # all halos in ONE case (one process): consecutive solves that differ only in the halo
         yield {"family": fam, "halos": list(halos), "footprint": fp, "order": order, "ns": ns}
     # the same ladder with the numerical thread count raised the way the CLI raises it (bldfm.config.NUM_THREADS)
@@ -248,7 +249,7 @@ def _field_error(case, halo, n):
         modes = (4, 4)
     z = np.linspace(z0, zt, n + 1)
     prof = tuple(np.asarray(f(z), dtype=float) + 0.0 * z for f in funcs)
-    lv = {"ascending": [n // 2, n], "descending": [n, n // 2], "rotated": [n // 2, n, n // 4]}[case["order"]]
+    lv = {"ascending": [n // 2, n], "descending": [n, n // 2], "rotated": [n // 2, n, n // 4], "duplicated": [n // 2, n, n // 2, n]}[case["order"]]
     saved_threads = rt.NUM_THREADS
     try:
         rt.NUM_THREADS = case.get("threads", 1)
@@ -279,6 +280,7 @@ def run(ctx):
     callforms.run_solver_forms(ctx)
     errorpaths.run(ctx, case_ladder, [c for c in cases(ctx.tier) if c.get('family') == 'power' and c['zgrid'] == 'geom' and c['orient'] == 'oblique' and c['dom'][0] > 1000][:2])
     ctx.run_cases(errorpaths.case_blocked_pyfftw, [{"blocked": "pyfftw"}], sub="pyfftw cannot be imported: refuse or be right", chunksize=1)
+    errorpaths.run_threaded(ctx, case_ladder, [c for c in cases(ctx.tier) if c.get('family') == 'power' and c['zgrid'] == 'geom' and c['orient'] == 'oblique' and c['dom'][0] > 1000][:1] + [c for c in cases(ctx.tier) if c['kind'] == 'most' and c['dom'][0] > 1000][:1], threads=(2, 3, 8))
     res = ctx.run_cases(case_ladder, cases(ctx.tier), sub="ladder", chunksize=1)
     ctx.run_cases(case_field_ladder, field_cases(ctx.tier), sub="field-ladder-with-halo", chunksize=1)
     ctx.cov["mode_pairs_judged"] = int(sum(r.get("obs", {}).get("mode_pairs_judged", 0) for r in res))
